@@ -796,10 +796,10 @@ def adapt_typehints(
     # Registered types
     elif get_registered_type(typehint):
         registered_type = get_registered_type(typehint)
+        if not registered_type.is_value_of_type(val):
+            val = registered_type.deserializer(val)
         if serialize:
             val = registered_type.serializer(val)
-        elif not serialize and not registered_type.is_value_of_type(val):
-            val = registered_type.deserializer(val)
 
     # Enum
     elif is_subclass(typehint, Enum):
